@@ -12,6 +12,7 @@ Direct oracle: total volume = sum of pixel volumes for every domain kind (GL/HP 
 k-length table vs unique lengths as sets, bins non-empty / volumes / means by brute force, identity
 iff equal descriptions (also through a fresh subprocess), codomain involution and n*d*d' = 1."""
 import json
+import os
 import pickle
 import subprocess
 import sys
@@ -112,9 +113,13 @@ def gen_cases(ctx):
     shapes = [[n] for n in range(1, 10)]
     shapes += [[a, b] for a in range(1, 7) for b in range(1, 7) if ctx.quick is False or (a + b) % 2 == 0 or a * b <= 6]
     shapes += [[2, 3, 4], [3, 3, 3], [1, 4, 2], [4, 2, 5]] if ctx.quick else [[a, b, c] for a in range(1, 5) for b in range(1, 5) for c in range(1, 5)]
-    for sh in shapes:
+    # non-square grids (shortcut branch needs the per-axis extents), both orders
+    shapes += [[6, 10], [10, 6], [3, 8], [8, 3], [2, 9], [5, 7], [4, 6, 9], [9, 4, 6], [2, 3, 7]]
+    if not ctx.quick:
+        shapes += [[a, b] for a in (7, 8, 9, 10) for b in (2, 3, 5, 6, 10)] + [[6, 9, 4], [3, 5, 8]]
+    for i, sh in enumerate(shapes):
         d = float(rng.choice(DYAD + ODD))
-        cases.append({"kind": "rgtab", "shape": sh, "dist": d})
+        cases.append({"kind": "rgtab", "shape": sh, "dist": d if i % 3 else None})   # None: default distances
     # unequal distances
     for _ in range(12 if ctx.quick else 80):
         nd = int(rng.integers(2, 4))
@@ -148,13 +153,86 @@ def gen_cases(ctx):
     # identity histories
     for i in range(12 if ctx.quick else 80):
         cases.append(gen_history(rng, "dt" if i % 2 == 0 else "md"))
+    # repeated queries on ONE domain object, interleaved with useful_binbounds / PowerSpace construction
+    for i in range(16 if ctx.quick else 100):
+        cases.append(gen_qhist(rng, i))
+    # DOF spaces, cached power-index arrays
+    for i in range(4 if ctx.quick else 20):
+        cases.append({"kind": "dof", "weights": [float(x) for x in rng.choice(DYAD + ODD, size=int(rng.integers(1, 7)))]})
+    for i in range(4 if ctx.quick else 20):
+        keys = []
+        for _ in range(int(rng.integers(3, 9))):
+            hi = int(rng.integers(0, len(PC_PARTNERS)))
+            u = ref_unique(PC_PARTNERS[hi])
+            m = [float(0.5 * (u[0] + u[1])), float(0.5 * (u[1] + u[2]))]
+            keys.append([hi, [None, None, m[:1], m][int(rng.integers(0, 4))]])
+        cases.append({"kind": "pcache", "keys": keys})
     return cases
+
+
+# harmonic partners for the power-index cache cases; 0/1 and 3/4 are two spellings of one description
+PC_PARTNERS = [["rg", 4, None, True], ["rg", [4], 1.0, True], ["rg", [4], 0.5, True], ["lm", 2, None], ["lm", 2, 2],
+               ["rg", [3, 2], None, True]]
+
+
+def gen_qhist(rng, i):
+    r = i % 4
+    if r == 0:       # anisotropic 2-D / 3-D grid ("hard way" branch)
+        nd = int(rng.choice([2, 2, 3]))
+        sh = [int(x) for x in rng.integers(2, 11 if nd == 2 else 5, size=nd)]
+        if nd == 2 and sh[0] * sh[1] > 60:
+            sh = [6, 10]
+        ds = [float(x) for x in rng.choice(DYAD + ODD, size=nd, replace=False)]
+        h = ["rg", sh, ds, True]
+    elif r == 1:     # isotropic, non-square (shortcut branch)
+        a, b = int(rng.integers(2, 8)), int(rng.integers(2, 11))
+        h = ["rg", [a, b], float(rng.choice(DYAD + ODD)), True]
+    elif r == 2:
+        h = ["rg", [int(rng.integers(3, 12))], float(rng.choice(DYAD + ODD)), True]
+    else:
+        lmax = int(rng.integers(2, 6))
+        h = ["lm", lmax, int(rng.integers(0, lmax + 1))]
+    ops = []
+    for _ in range(int(rng.integers(4, 9))):
+        q = int(rng.integers(0, 10))
+        if q < 3:
+            ops.append(["uniq"])
+        elif q < 6:
+            ops.append(["useful", bool(rng.integers(0, 2)), None if rng.integers(0, 2) else int(rng.integers(3, 6))])
+        elif q < 7:
+            ops.append(["ktab"])
+        elif q < 9:
+            ops.append(["power", None])
+        else:
+            ops.append(["power_useful", bool(rng.integers(0, 2))])
+    ops.append(["uniq"])
+    return {"kind": "qhist", "h": h, "ops": ops}
+
+
+def ref_klengths(h):
+    """k-length table of a harmonic space spec, computed here (not by the code under test)."""
+    if h[0] == "lm":
+        lmax, mmax = int(h[1]), int(h[1] if h[2] is None else h[2])
+        return np.array([l for l in range(lmax + 1)] + [l for m in range(1, mmax + 1) for l in range(m, lmax + 1) for _ in (0, 1)], dtype=np.float64)
+    shape = [int(n) for n in (h[1] if isinstance(h[1], list) else [h[1]])]
+    d = h[2]
+    ds = [1.0] * len(shape) if d is None else ([float(d)] * len(shape) if not isinstance(d, list) else [float(x) for x in d])
+    res = np.zeros(())
+    for n, dd in zip(shape, ds):
+        j = np.arange(n, dtype=np.float64)
+        res = np.add.outer(res, (np.minimum(j, n - j) * dd) ** 2)
+    return np.sqrt(res).ravel()
+
+
+def ref_unique(h):
+    k = np.unique(ref_klengths(h))
+    keep = np.r_[True, np.diff(k) > 1e-10 * max(1.0, float(k[-1]))]
+    return k[keep]
 
 
 def gen_binning(rng, h):
     ift = quiet()
-    hsp = mk_space(h)
-    uk = np.asarray(hsp.get_unique_k_lengths(), dtype=np.float64)
+    uk = ref_unique(h)
     r = int(rng.integers(0, 10))
     if r < 3:
         return None
@@ -166,11 +244,12 @@ def gen_binning(rng, h):
     if r < 8 and len(uk) >= 2:    # bounds exactly AT k values (boundary: k <= bound goes left)
         sel = [float(u) for u in uk[1:] if rng.integers(0, 2)]
         return sel if sel else [float(uk[1])]
-    if len(uk) >= 3:
-        try:
-            return [float(b) for b in ift.PowerSpace.useful_binbounds(hsp, bool(rng.integers(0, 2)))]
-        except ValueError:
-            return None
+    if len(uk) >= 3:        # linear / logarithmic bounds as PowerSpace.useful_binbounds documents them
+        lb, rb = 0.5 * (uk[0] + uk[1]), 0.5 * (uk[-2] + uk[-1])
+        nb = int(rng.integers(3, 6))
+        if rng.integers(0, 2):
+            return [float(b) for b in np.linspace(lb, rb, nb - 1)]
+        return [float(b) for b in np.logspace(np.log(lb), np.log(rb), nb - 1, base=np.e)]
     return None
 
 
@@ -262,6 +341,45 @@ def run_history(case):
     return {"classes": classes, "descs": descs, "objs": objs}
 
 
+def qh_answer(sp, op, ift):
+    """One query on the given domain object; returns a JSON-able answer (exceptions are answers)."""
+    try:
+        if op[0] == "uniq":
+            return {"v": fl(sp.get_unique_k_lengths())}
+        if op[0] == "ktab":
+            return {"v": fl(sp.get_k_length_array().asnumpy())}
+        if op[0] == "useful":
+            bb = ift.PowerSpace.useful_binbounds(sp, op[1], op[2])
+            return {"v": None if bb is None else fl(bb)}
+        if op[0] in ("power", "power_useful"):
+            bb = op[1] if op[0] == "power" else ift.PowerSpace.useful_binbounds(sp, op[1])
+            p = ift.PowerSpace(sp, None if bb is None else tuple(float(x) for x in bb))
+            return {"v": None, "bb": None if bb is None else fl(bb), "pindex": [int(x) for x in p.pindex.ravel()],
+                    "klen": fl(p.k_lengths), "dvol": fl(p.dvol)}
+    except Exception as e:  # noqa: BLE001
+        return {"error": type(e).__name__, "message": str(e)[:120]}
+    raise C.MachineryError("unknown query " + repr(op))
+
+
+def run_qhist(case):
+    ift = quiet()
+    sp = mk_space(case["h"])            # ONE object for the whole history
+    ans, fresh = [], []
+    for op in case["ops"]:
+        ans.append(qh_answer(sp, op, ift))
+        fresh.append(qh_answer(mk_space(case["h"]), op, ift))      # the same query on a brand-new object
+    f = mk_space(case["h"])
+    out = {"answers": ans, "fresh": fresh, "pdvol": float(f.scalar_dvol)}
+    try:
+        out["distances"] = fl(f.distances) if case["h"][0] == "rg" else None
+        out["ks"] = fl(f.get_k_length_array().asnumpy())
+        out["uniq_fresh"] = fl(f.get_unique_k_lengths())
+    except Exception as e:  # noqa: BLE001
+        out["error"] = type(e).__name__
+        out["message"] = str(e)[:120]
+    return out
+
+
 def run_case(case):
     ift = quiet()
     k = case["kind"]
@@ -296,6 +414,23 @@ def run_case(case):
             except ValueError as e:
                 obs["error"] = "ValueError"
                 obs["message"] = str(e)
+        elif k == "qhist":
+            obs.update(run_qhist(case))
+        elif k == "dof":
+            sp = mk_space(["dof", case["weights"]])
+            obs.update(size=int(sp.size), shape=list(sp.shape), dvol=fl(sp.dvol), total=float(sp.total_volume),
+                       scalar=sp.scalar_dvol is None, harmonic=bool(sp.harmonic))
+        elif k == "pcache":
+            arrs, descs = [], []
+            for sidx, bb in case["keys"]:
+                h = mk_space(PC_PARTNERS[sidx])
+                p = ift.PowerSpace(h, None if bb is None else tuple(bb))
+                arrs.append((p.pindex, p.k_lengths, p.dvol))
+                descs.append((desc_key(h), None if bb is None else tuple(bb)))
+            obs["classes"] = [next(j for j in range(i + 1) if arrs[j][0] is arrs[i][0]) for i in range(len(arrs))]
+            obs["classes_k"] = [next(j for j in range(i + 1) if arrs[j][1] is arrs[i][1]) for i in range(len(arrs))]
+            obs["classes_v"] = [next(j for j in range(i + 1) if arrs[j][2] is arrs[i][2]) for i in range(len(arrs))]
+            obs["descs"] = descs
         elif k.startswith("hist_"):
             r = run_history(case)
             obs["classes"] = r["classes"]
@@ -386,7 +521,49 @@ def coq_check(case, obs):
             cq(obs["total"]), cqs(obs["extents"]), cqs(obs["codist"]), cq(obs["codvol"]))
     if k.startswith("hist_"):
         return hist_terms(case, obs)
+    if k == "dof":
+        if not obs["scalar"] or obs["harmonic"] or obs["shape"] != [obs["size"]]:
+            return "false"
+        return "dof_ok %s %d%%nat %s %s" % (cqs(case["weights"]), obs["size"], cqs(obs["dvol"]), cq(obs["total"]))
+    if k == "pcache":
+        codes, keys = {}, []
+        for d in obs["descs"]:
+            keys.append(codes.setdefault(d, len(codes)))
+        return " && ".join("(nat_list_eqb (pc_classes %s) %s)" % (cnats(keys), cnats(obs[c])) for c in ("classes", "classes_k", "classes_v"))
+    if k == "qhist":
+        return qhist_terms(case, obs)
     return "false"
+
+
+def qhist_terms(case, obs):
+    """Every answer of the history against the (pure) model: unique lengths = value set of the table,
+    PowerSpace results = binning of the real k-length floats; exceptions must be the fresh object's."""
+    h = case["h"]
+    parts = []
+    for op, a, f in zip(case["ops"], obs["answers"], obs["fresh"]):
+        if ("error" in a) != ("error" in f) or ("error" in a and a["error"] != f["error"]):
+            return "false"
+        if "error" in a:
+            if a["error"] != "ValueError":
+                return "false"
+            continue
+        if op[0] == "uniq":
+            if h[0] == "lm":
+                u = as_ints(a["v"])
+                if u is None:
+                    return "false"
+                parts.append("uniq_lm_ok %d%%nat %s" % (h[1], cnats(u)))
+            else:
+                parts.append("uniq_q_ok %s %s %s" % (cnats(h[1]), cqs(obs["distances"]), cqs(a["v"])))
+        elif op[0] in ("power", "power_useful"):
+            o = "(Some (%s, (%s, %s)))" % (cnats(a["pindex"]), cqs(a["klen"]), cqs(a["dvol"]))
+            if a["bb"] is None:
+                parts.append("ps_natural_ok %s %s %s %s" % (cqs(obs["uniq_fresh"]), cqs(obs["ks"]), cq(obs["pdvol"]), o))
+            else:
+                parts.append("ps_ok %s %s %s %s" % (cqs(a["bb"]), cqs(obs["ks"]), cq(obs["pdvol"]), o))
+    if obs.get("error"):
+        return "false"
+    return " && ".join("(%s)" % p for p in parts) if parts else "true"
 
 
 # ---------------------------------------------------------------------------------------------------
@@ -514,8 +691,73 @@ def history_failure(case, obs):
     return None
 
 
+def qhist_failure(case, obs):
+    if obs.get("error"):
+        return "query on a fresh domain raised %s (%s)" % (obs["error"], obs.get("message"))
+    ks = np.array(obs["ks"])
+    scale = max(1.0, float(ks.max()))
+    for i, (op, a, f) in enumerate(zip(case["ops"], obs["answers"], obs["fresh"])):
+        if a != f:
+            return "query %d (%s) on a domain object that was used before answers differently from a fresh, equal domain" % (i, op[0])
+        if "error" in a:
+            if a["error"] != "ValueError":
+                return "query %d (%s) raised %s" % (i, op[0], a["error"])
+            continue
+        if op[0] == "uniq":
+            u = np.array(a["v"])
+            if len(u) == 0 or not np.all(np.diff(u) > 0):
+                return "query %d: unique k-lengths empty or not strictly increasing" % i
+            d = np.abs(ks[:, None] - u[None, :])
+            if not (np.all(d.min(axis=1) <= 1e-9 * scale) and np.all(d.min(axis=0) <= 1e-9 * scale)):
+                return "query %d: the unique k-lengths no longer agree with the k-length table" % i
+        if op[0] == "ktab" and not np.array_equal(np.array(a["v"]), ks):
+            return "query %d: the k-length table changed" % i
+        if op[0] in ("power", "power_useful"):
+            pin = np.array(a["pindex"])
+            bb = a["bb"]
+            if bb is not None:
+                ref = np.array([int(np.sum(np.array(bb) < x)) for x in ks])
+                if not np.array_equal(ref, pin):
+                    return "query %d: pindex is not the number of bounds below the pixel's k-length" % i
+            nb = len(a["klen"])
+            cnt = np.array([np.sum(pin == b) for b in range(nb)])
+            if np.any(cnt == 0) or not near(a["dvol"], cnt * obs["pdvol"]) or \
+               not near(a["klen"], [ks[pin == b].mean() for b in range(nb)]):
+                return "query %d: bin sizes / volumes / mean k-lengths are not the sums and averages over member pixels" % i
+    return None
+
+
 def direct_failure(case, obs):
+    """The property on the implementation; an exception of the code under test is a failure, not a crash."""
+    try:
+        return direct_failure_(case, obs)
+    except C.MachineryError:
+        raise
+    except Exception as e:  # noqa: BLE001
+        return "%s: the implementation raised %s (%s)" % (case["kind"], type(e).__name__, str(e)[:120])
+
+
+def direct_failure_(case, obs):
     k = case["kind"]
+    if k == "qhist":
+        return qhist_failure(case, obs)
+    if k == "dof":
+        if obs["error"]:
+            return "DOFSpace raised %s" % obs["error"]
+        w = np.array(case["weights"])
+        if obs["size"] != len(w) or not np.array_equal(np.array(obs["dvol"]), w) or not near(obs["total"], w.sum()):
+            return "DOFSpace: size / dvol / total volume are not len / the weights / their sum"
+        return volume_failure(mk_space(["dof", case["weights"]]))
+    if k == "pcache":
+        if obs["error"]:
+            return "PowerSpace raised %s" % obs["error"]
+        for c in ("classes", "classes_k", "classes_v"):
+            for i in range(len(obs[c])):
+                for j in range(i):
+                    if (obs[c][i] == obs[c][j]) != (obs["descs"][i] == obs["descs"][j]):
+                        return "cached power-space arrays %d and %d: identical = %s, equal (partner, binbounds) = %s" % (
+                            j, i, obs[c][i] == obs[c][j], obs["descs"][i] == obs["descs"][j])
+        return None
     if k == "power":
         if obs["error"] not in (None, "ValueError"):
             return "PowerSpace raised %s" % obs["error"]
@@ -616,7 +858,16 @@ class C08(C.Check):
         self.cases = corpus + gen_cases(ctx)
         self.obs = [run_case(c) for c in self.cases]
         checks = [coq_check(c, o) for c, o in zip(self.cases, self.obs)]
-        bad = C.eval_cases(self.prop, "corr", HEADER, checks, shard=40 if ctx.quick else 120, jobs=5)
+        tag = "corr_%d" % os.getpid()          # per-process scratch names: concurrent runs do not collide
+        try:
+            bad = C.eval_cases(self.prop, tag, HEADER, checks, shard=40 if ctx.quick else 120, jobs=5)
+        finally:
+            for f in os.listdir(ctx.run_dir()):
+                if f.startswith("cases_%s_" % tag) or f.startswith(".cases_%s_" % tag):
+                    try:
+                        os.remove(os.path.join(ctx.run_dir(), f))
+                    except OSError:
+                        pass
         for i in bad[:4]:
             o = {k: v for k, v in self.obs[i].items() if k not in ("objs",)}
             res.add_broken("correspondence", "%s vs coq/C08/Model.v" % self.cases[i]["kind"], {"case": self.cases[i], "observed": o})
@@ -627,11 +878,14 @@ class C08(C.Check):
             k = c["kind"]
             if (k == "lm" and c["lmax"] >= 1) or (k in ("rgtab", "rgtab_q") and int(np.prod(c["shape"])) >= 3) or \
                (k == "rggeom" and int(np.prod(c["shape"])) >= 2) or (k == "power" and o.get("hsize", 0) >= 3) or \
+               (k == "qhist" and sum(1 for op in c["ops"] if op[0] in ("useful", "power_useful")) >= 1 and len(c["ops"]) >= 4) or \
+               (k == "dof" and len(c["weights"]) >= 2) or \
+               (k == "pcache" and len(set(o.get("classes", []))) >= 2 and len(set(o.get("classes", []))) < len(o.get("classes", []))) or \
                (k.startswith("hist_") and len(set(o.get("classes", []))) >= 2 and len(set(o.get("classes", []))) < len(o.get("classes", []))):
                 nontrivial.add(json.dumps(c, sort_keys=True))
         res.coverage.update({
             "evaluations": len(self.cases), "distinct_nontrivial": len(nontrivial),
-            "rule": "LMSpace all lmax<=%d,mmax<=lmax; harmonic RGSpace tables 1-D sizes 1-9, 2-D up to 6x6, 3-D up to 4^3 (equal and unequal distances, dyadic and non-dyadic); RG geometry 1-3 axes sizes 1-9 with None/scalar/tuple distances, both kinds; PowerSpace over RG 1-D/2-D and LM partners with natural, arbitrary ascending, at-k-value, linear and logarithmic bounds; DomainTuple/MultiDomain histories of make / make(obj) / pickle over a pool of %d domain spellings; non-trivial = more than a couple of pixels, resp. a history with both identical and distinct results; distinct by full case" % (5 if ctx.quick else 8, len(SPELLINGS)),
+            "rule": "LMSpace all lmax<=%d,mmax<=lmax; harmonic RGSpace tables 1-D sizes 1-9, 2-D up to 6x6, 3-D up to 4^3 (equal and unequal distances, dyadic and non-dyadic); RG geometry 1-3 axes sizes 1-9 with None/scalar/tuple distances, both kinds; PowerSpace over RG 1-D/2-D and LM partners with natural, arbitrary ascending, at-k-value, linear and logarithmic bounds; DomainTuple/MultiDomain histories of make / make(obj) / pickle over a pool of %d domain spellings; histories of repeated get_unique_k_lengths / get_k_length_array / useful_binbounds / PowerSpace queries on ONE domain object (anisotropic and isotropic non-square RG up to 6x10, 1-D, LM) compared with a fresh object and the model; non-square equal-distance grids up to 6x10 / 4x6x9 in both axis orders; DOFSpace; identity classes of the cached power-index arrays; non-trivial = more than a couple of pixels, resp. a history with both identical and distinct results; distinct by full case" % (5 if ctx.quick else 8, len(SPELLINGS)),
             "samples": [{"case": c} for c in self.cases[40:43]],
             "input_distribution": {"by_kind": kinds, "power_rejected": sum(1 for c, o in zip(self.cases, self.obs) if c["kind"] == "power" and o["error"] == "ValueError")},
             "disagreements": len(bad), "exhaustive": False,
@@ -677,8 +931,11 @@ class C08(C.Check):
         if c["kind"] == "subprocess":
             return subprocess_identity_failure(ctx) is not None
         if c["kind"] == "domain":
-            sp = mk_space(c["spec"])
-            return (volume_failure(sp) or (klength_failure(sp) if getattr(sp, "harmonic", False) else None)) is not None
+            try:
+                sp = mk_space(c["spec"])
+                return (volume_failure(sp) or (klength_failure(sp) if getattr(sp, "harmonic", False) else None)) is not None
+            except Exception:  # noqa: BLE001
+                return True
         return direct_failure(c, run_case(c)) is not None
 
 
